@@ -15,7 +15,7 @@ is a summary (`rt-ok len=…`) which the driver predicts from the length laws al
 from props.common import *
 
 ID = 'C05'
-LEAN_PROOFS = ['Proofs.C05']
+LEAN_PROOFS = ['Proofs.C05', 'Proofs.C05.KatF']
 GEN_ITEMS = []
 RULE = ('op lines = (mode, cipher, block length, key, IV/counter, padding, enc|dec|rt|er, message); every mode x {AES-128/192/256, DES, '
         'TDEA in its 5 calling forms, Serpent with several key lengths, 2 toy ciphers x block lengths 8..128} x every residue of |M| mod '
@@ -636,11 +636,17 @@ def shrink(line):
         yield ' '.join(t[:-1] + ['x' + '00' * ((len(msg) - 1) // 2)])
 
 
-LEVEL_TEXT = ('Lean 4 theorems about Model.Mode (the hand-written mirror of crysp/mode.py over an abstract block cipher) for every cipher '
-              'satisfying the permutation hypotheses, every key/IV/counter block and every message length; the model is tied to the current '
-              'source by a correspondence stream that drives the real mode code with toy ciphers of block length 8..128 bytes and the real '
-              'AES/DES/TDEA/Serpent/Threefish objects, and evaluates an independent SP 800-38A reference on the real code.')
+LEVEL_TEXT = ('Lean 4 theorems about Model.Mode (the hand-written mirror of crysp/mode.py over a block cipher object), stated (a) for every '
+              'cipher satisfying the permutation hypotheses and (b) for the library\'s AES-128/192/256, DES, TDEA (every calling form) and Serpent '
+              '(keys of 0..32 bytes) with NO hypothesis on the cipher left: the C03 permutation theorems and the C02 refinement theorems of each '
+              'cipher are composed, so that the mode output equals SP 800-38A over FIPS 197 / FIPS 46-3 / SP 800-67 / the Serpent submission, for '
+              'every key, IV / counter block, admissible padding and message length. The models are tied to the current source by a '
+              'correspondence stream that drives the real mode objects over the real cipher objects (and over toy ciphers of block length 8..128 '
+              'bytes), compared with Model.Mode over the Lean cipher models and Spec.Mode over the Spec ciphers, and evaluates an independent '
+              'SP 800-38A reference and the appendix F vectors on the real code.')
 LEVEL_NOTE = ('Trusted: Lean kernel; axioms within {propext, Classical.choice, Quot.sound}; Spec.Mode/Spec.ModePad as renderings of SP 800-38A, its '
-              'addendum and the padding methods; extract.py/runcheck.py/props/C05.py. The cipher is abstract: instantiation for AES/DES/TDEA/'
-              'Serpent/Threefish needs the C03 permutation theorems. Theorem list: evidence/C05.json coverage.theorems.')
-TECHNIQUE = 'Lean 4 proof (induction over block lists, abstract cipher refinement) + correspondence check with toy and real ciphers'
+              'addendum and the padding methods (Spec.ModePad proved equal to Spec.Padding on byte strings; appendix F.1.1/F.2.1/F.5.1 evaluated '
+              'through Spec.Mode over Spec.Aes in the kernel); Spec.Aes/Des/Serpent; extract.py/runcheck.py/props/C05.py. Threefish has no Lean '
+              'model yet (hook: LibCipher in Proofs/Lemmas/ModeInst.lean); for it only the abstract-cipher theorems and summary lines apply. '
+              'Theorem list: evidence/C05.json coverage.theorems.')
+TECHNIQUE = 'Lean 4 proof (induction over block lists, cipher refinement composed with C02/C03) + correspondence check with the real and toy ciphers'
